@@ -41,7 +41,12 @@ static int  g_grid[2];
 static int  g_baddel[2];
 static Db*  g_db[2];
 
-static int gw(const Db* d) { return (d == g_db[0]) ? 0 : 1; }
+static int g_nullcall; // a Db member function was called through a null pointer (the real one would crash)
+static int gw(const Db* d)
+{
+  if (d == nullptr) g_nullcall = 1; // kernels that can reach this are compiled with -fno-delete-null-pointer-checks
+  return (d == g_db[0]) ? 0 : 1;
+}
 
 #ifdef VF_SOLVER
 // libc piece reached through std::string(const char*) of the real my_throw(...) calls
@@ -221,6 +226,7 @@ static void ghost_snapshot()
   for (int w = 0; w < 2; w++)
   {
     g_baddel[w] = 0;
+    g_nullcall = 0;
     for (int i = 0; i < G_MAXID; i++)
     {
       g_touched[w][i] = 0;
